@@ -172,6 +172,8 @@ enum Chunk {
     Operands(usize, usize),
     Templates(usize),
     Corpus(usize, usize, usize),
+    /// every single-byte substitution (12 replacement bytes) at offsets from..to of a shipped contract
+    CorpusMutations(usize, usize, usize),
 }
 
 fn small_corpus() -> &'static Vec<corpus::Contract> {
@@ -244,6 +246,16 @@ fn plan(tier: Tier) -> Vec<Chunk> {
         while from <= c.code.len() {
             let to = (from + step).min(c.code.len() + 1);
             v.push(Chunk::Corpus(ci, from, to));
+            from = to;
+        }
+    }
+    let mutated = if tier.thorough() { small_corpus().len() } else { 1 };
+    for (ci, c) in small_corpus().iter().enumerate().take(mutated) {
+        let step = 8;
+        let mut from = 0;
+        while from < c.code.len() {
+            let to = (from + step).min(c.code.len());
+            v.push(Chunk::CorpusMutations(ci, from, to));
             from = to;
         }
     }
@@ -400,6 +412,20 @@ impl Check for C01 {
                     run(ctx, "corpus_prefixes", &c.code[..cut], default_only);
                 }
             }
+            Chunk::CorpusMutations(ci, from, to) => {
+                let c = &small_corpus()[ci];
+                const REPLACEMENTS: [u8; 12] = [0x00, 0x5b, 0x56, 0x57, 0xff, 0x60, 0x7f, 0x1b, 0x1c, 0x20, 0x54, 0x55];
+                for at in from..to {
+                    for r in REPLACEMENTS {
+                        if c.code[at] == r {
+                            continue;
+                        }
+                        let mut m = c.code.clone();
+                        m[at] = r;
+                        run(ctx, "corpus_single_byte_mutations", &m, default_only);
+                    }
+                }
+            }
         }
     }
     fn coverage(&self, tier: Tier, total: &Ctx) -> Map<String, Value> {
@@ -410,7 +436,8 @@ impl Check for C01 {
              array-key idioms), all 3 configurations up to length 3; every assignment of 6 boundary constants to the operands of \
              28 multi-operand opcodes (<= 3 non-zero operands above arity 4) x 3 consumer tails; {} pipeline templates (mask/shift/ \
              divide/multiply packing, mapping offset, array index, hashed memory, exp/sar/signextend/byte, return/log/revert) x B x B \
-             with |B| = {}; every prefix of the {} smallest shipped contracts. Each input goes through analyze() and through the \
+             with |B| = {}; every prefix of the {} smallest shipped contracts and every single-byte substitution (12 replacement bytes incl. STOP, JUMPDEST, \
+             JUMP, JUMPI, PUSH1, PUSH32, SHL, SHR, SHA3, SLOAD, SSTORE, SELFDESTRUCT) at every offset of the smallest one (thorough: of all of them). Each input goes through analyze() and through the \
              staged API (results must agree) under a panic guard; aborts and hangs are attributed by the process supervisor. \
              non-trivial = (input, configuration) that got past execution into the type checker; distinct by content",
             if tier.thorough() { " and 3 (length 3: default configuration)" } else { "" },
